@@ -157,7 +157,7 @@ type txSpec struct {
 	SysFee   int64
 	VUB      uint32 // 0 = height+5
 	NetDelta int64  // added to the calculator's fee
-	Rich     int    // 1: signers get scopes with contracts, groups and rules (more var-int sites); 2: with full lists (size)
+	Rich     int    // 1: the sender gets scopes with contracts, groups and rules (more sites with alternative spellings); 2: all signers get long lists (size)
 }
 
 func nonceOf(label string) uint32 { return crc32.ChecksumIEEE([]byte(label)) }
@@ -170,30 +170,31 @@ func nops(n int) []byte {
 }
 
 func richSigner(h util.Uint160, level int) transaction.Signer {
+	sh := transaction.ConditionScriptHash(nativehashes.GasToken)
+	cc := transaction.ConditionCalledByContract(nativehashes.NeoToken)
+	if level > 1 {
+		// size without public keys (their decompression dominates decoding time)
+		s := transaction.Signer{Account: h, Scopes: transaction.CalledByEntry | transaction.CustomContracts | transaction.Rules,
+			Rules: []transaction.WitnessRule{{Action: transaction.WitnessAllow, Condition: &sh}, {Action: transaction.WitnessDeny, Condition: &cc}}}
+		for i := 0; i < 16; i++ {
+			s.AllowedContracts = append(s.AllowedContracts, util.Uint160{byte(i + 1)})
+		}
+		return s
+	}
 	g1 := detKey("group-1").PublicKey()
 	g2 := detKey("group-2").PublicKey()
 	and := transaction.ConditionAnd{(*transaction.ConditionGroup)(g2), transaction.ConditionCalledByEntry{}}
-	sh := transaction.ConditionScriptHash(nativehashes.GasToken)
 	or := transaction.ConditionOr{&sh, &and}
-	s := transaction.Signer{
+	return transaction.Signer{
 		Account:          h,
 		Scopes:           transaction.CalledByEntry | transaction.CustomContracts | transaction.CustomGroups | transaction.Rules,
 		AllowedContracts: []util.Uint160{nativehashes.GasToken, nativehashes.NeoToken},
 		AllowedGroups:    []*keys.PublicKey{g1},
 		Rules: []transaction.WitnessRule{
 			{Action: transaction.WitnessAllow, Condition: &or},
-			{Action: transaction.WitnessDeny, Condition: (*transaction.ConditionCalledByGroup)(g1)},
+			{Action: transaction.WitnessDeny, Condition: &cc},
 		},
 	}
-	if level > 1 {
-		for i := 2; i < 16; i++ {
-			s.AllowedContracts = append(s.AllowedContracts, util.Uint160{byte(i)})
-		}
-		for i := 1; i < 16; i++ {
-			s.AllowedGroups = append(s.AllowedGroups, detKey(fmt.Sprintf("group-x%d", i)).PublicKey())
-		}
-	}
-	return s
 }
 
 // unsigned builds the transaction of spec without witnesses and with
@@ -205,9 +206,9 @@ func unsigned(height uint32, sp *txSpec) *transaction.Transaction {
 	if sp.VUB == 0 {
 		tx.ValidUntilBlock = height + 5
 	}
-	for _, a := range sp.Signers {
+	for i, a := range sp.Signers {
 		s := transaction.Signer{Account: a.Hash, Scopes: transaction.Global}
-		if sp.Rich > 0 && a.Hash != nativehashes.Notary {
+		if (sp.Rich > 1 || (sp.Rich == 1 && i == 0)) && a.Hash != nativehashes.Notary {
 			s = richSigner(a.Hash, sp.Rich)
 		}
 		if a.Hash == nativehashes.Notary {
@@ -375,7 +376,8 @@ func shapeMN() [][2]int {
 		}
 	}
 	// emit.Int switches from PUSH<n> to PUSHINT8 at 16
-	out = append(out, [2]int{1, 15}, [2]int{15, 15}, [2]int{1, 16}, [2]int{15, 16}, [2]int{16, 16}, [2]int{16, 17}, [2]int{17, 17})
+	// (at most 15 signatures fit into an invocation script of 1024 bytes)
+	out = append(out, [2]int{1, 15}, [2]int{15, 15}, [2]int{1, 16}, [2]int{15, 16}, [2]int{1, 17}, [2]int{15, 17})
 	return out
 }
 
